@@ -494,8 +494,9 @@ var notCovered = map[string][]string{
 		"Ref.MarshalJSON is trusted; schema source bytes are assumed not to be pool arrays",
 	},
 	"C12": {
-		"language equality with the RFC 8259 pushdown automaton for nesting (coupling of the event stack with the automaton's stack)",
-		"exact lexeme spans and begin/end pairing; tree equality with an independent decoder; Len()",
+		"that the reference transducer of tools/jsondoc_rows.py (whose rows every state function is proved to implement) is the RFC 8259 grammar: by inspection, not machine-checked",
+		"composition of the rows over a whole text (language equality as a theorem about Check()); Next is specified by invariants, not by the iterated transducer",
+		"tree equality with an independent decoder; Len()",
 	},
 	"C13": {"Number.String(); known findings: 0eN rejected, exponents above 2^40"},
 	"C16": {"positions produced by the schema scanner and loader themselves (only the index -> line/column computation and rendering are proved)"},
